@@ -68,6 +68,7 @@ def find_cmd_strings(data: bytes) -> list[Node]:
             if parens < 0:
                 full_cmd = full_cmd[:i]
                 end = start + i
+                break  # the command ends at the first unbalanced closing parenthesis
         deobfuscated, obfuscation = deobfuscate_cmd(full_cmd)
 
         split = deobfuscated.split()
